@@ -32,8 +32,8 @@ META = {
         'read and written through BASIC statements. Not pinned by the statement and therefore not generated or accepted as a '
         'set: a tuple that is both negative and otherwise out of range/wrong arity may give 5 or 9; subscripts beyond '
         '32767, fractional subscripts, DIM with a bound below the base, ERASE of an unknown array, OPTION BASE after '
-        'an array exists, and whether an undeclared array exists after a first use whose SUBSCRIPT was out of range '
-        '(a first use with an in-range subscript and a failing right-hand side is pinned: the array exists). '
+        'an array exists. A first use is a first use also when it fails (subscript above 10, or failing right-hand side): '
+        'the array then exists with bounds 10 (dump shape, Duplicate Definition on DIM, ERASE works). '
         'FOR counters cannot be array elements and READ/INPUT targets have no failing right-hand side; not generated. '
         'The exhaustive space cycles the four element types over the shapes instead of crossing them.'),
     'rule': ('case = (shape, option base, element type, subscript tuple, access kind) for element accesses, '
@@ -49,7 +49,7 @@ META = {
     'require_counters': {'any': ['err9_bounds_seen', 'err9_arity_seen', 'err5_negative_seen', 'err10_redim_seen',
                                  'erase_then_dim_seen', 'implicit_dim_seen', 'option_base1_seen',
                                  'failing_rhs_with_bad_subscript_seen', 'failing_rhs_first_use_seen',
-                                 'failing_rhs_in_bounds_seen']},
+                                 'failing_rhs_in_bounds_seen', 'first_use_out_of_range_seen']},
     'timeout': {'quick': 900, 'thorough': 7200},
 }
 
@@ -320,6 +320,36 @@ def failing_rhs_in_bounds(ctx, name, sigil, t, n, case, first_use=False):
     return stmt
 
 
+def first_use_created(ctx, name, sigil, k, lo, how, case):
+    """After a first use (also a failing one) the array exists with bounds 10 in each of its k dimensions:
+    dump shape, all elements default, subscript 11 still out of range, DIM -> Duplicate Definition, ERASE works."""
+    res = ctx.res
+    nm = name.encode() + sigil.encode()
+    ok = check_dump(ctx, name, sigil, (10,) * k, lo, lambda t: default(sigil),
+                    'implicit-dim:failing-first-use-did-not-dimension', 'after ' + how, case)
+    t11 = (11,) + (lo,) * (k - 1)
+    failing_access(ctx, name, sigil, t11, (9,), 'bounds-after-failing-first-use', write=False, case=case)
+    code = ctx.ex(b'DIM ' + nm + sub((20,) * k), case)
+    if code == 10:
+        res.count('err10_redim_seen')
+    elif code is not None:
+        res.violation('redim:after-failing-first-use:error-class',
+                      'DIM %s%s after %s -> error %d, expected 10 (Duplicate Definition)' % (
+                          nm.decode(), sub((20,) * k).decode(), how, code), case)
+    code = ctx.ex(b'ERASE ' + nm, case)
+    if code:
+        res.violation('erase:after-failing-first-use:error', 'ERASE %s after %s -> error %d' % (nm.decode(), how, code), case)
+    elif code == 0:
+        code = ctx.ex(b'DIM ' + nm + sub((2,) * k), case)
+        if code:
+            res.violation('dim-after-erase:error', 'DIM %s after ERASE -> error %d' % (nm.decode(), code), case)
+        else:
+            res.count('erase_then_dim_seen')
+            check_dump(ctx, name, sigil, (2,) * k, lo, lambda t: default(sigil), 'dim-after-erase:not-fresh',
+                       'after ERASE and DIM', case)
+    return ok
+
+
 # ---------------------------------------------------------------------------------------------
 # exhaustive finite space
 
@@ -521,11 +551,29 @@ def run_directed(spec, res):
                         for j, (t, codes, cls) in enumerate(bad_tuples((10,) * k, lo)):
                             failing_access(ctx, 'B', sigil, t, codes, cls, write=True, case=dict(case, tuple=list(t)),
                                            rhs=bad_rhs(sigil, j + n, avoid=codes))
-                        # undeclared array, subscript beyond the default bound, failing right-hand side: error 9
-                        # (whether the array exists afterwards is not pinned)
-                        t = (11,) + (lo,) * (k - 1)
-                        failing_access(ctx, 'D', sigil, t, (9,), 'bounds-of-undeclared-array', write=True,
-                                       case=dict(case, tuple=list(t)), rhs=bad_rhs(sigil, n, avoid=(9,)))
+        # a first use whose subscript is too large is still a first use: error 9, and the array exists with bounds 10
+        n = 0
+        for base in ('unset', '0', '1'):
+            lo = lo_of(base)
+            for sigil in SIGILS:
+                for k in (1, 2, 3, 4):
+                    if k == 4 and sigil in '!#':
+                        continue        # 11^4 singles/doubles do not fit the data segment
+                    for mode in ('read', 'write', 'write-failing-rhs'):
+                        for big in (11, 12, 255, 32767):
+                            n += 1
+                            if (n + k) % 4 and big > 12:
+                                continue
+                            ctx.fresh(base)
+                            pos = n % k
+                            t = tuple(big if d == pos else (lo + (3 * d + n) % 8) for d in range(k))
+                            case = {'directed': 'first-use-out-of-range', 'base': base, 'type': sigil, 'dims': k,
+                                    'mode': mode, 'tuple': list(t)}
+                            res.case(('first-use-oor', base, sigil, k, mode, t))
+                            failing_access(ctx, 'D', sigil, t, (9,), 'bounds-of-undeclared-array', write=(mode != 'read'),
+                                           case=case, rhs=(bad_rhs(sigil, n, avoid=(9,)) if mode == 'write-failing-rhs' else None))
+                            res.count('first_use_out_of_range_seen')
+                            first_use_created(ctx, 'D', sigil, k, lo, 'subscript %d in a first %s' % (big, mode), case)
         res.sample({'kind': 'directed', 'what': 'implicit DIM (bounds 10) / re-DIM / ERASE+DIM / failing right-hand sides for 3 base settings x 4 types x 1-3 dims'})
     finally:
         ctx.close()
@@ -797,6 +845,16 @@ def run_history(spec, rng, res):
                     t, codes, cls = rng.choice(bad_tuples(bounds, lo, rng))
                     steps.append(b'access ' + nm + sub(t))
                     failing_access(ctx, name, sigil, t, codes, cls, write=rng.random() < 0.5, case=case)
+                elif rng.random() < 0.5:
+                    # first use of an undeclared array with a too large subscript: error 9, the array exists afterwards
+                    bounds = (10,) * rng.randint(1, 2)
+                    t = list(rng.randint(lo, 10) for _ in bounds)
+                    t[rng.randrange(len(t))] = rng.choice((11, 12, 40))
+                    t = tuple(t)
+                    steps.append(b'first use ' + nm + sub(t))
+                    failing_access(ctx, name, sigil, t, (9,), 'bounds-of-undeclared-array', write=rng.random() < 0.5, case=case)
+                    model[key] = {'bounds': bounds, 'vals': {}}
+                    res.count('first_use_out_of_range_seen')
                 else:
                     continue
                 # all arrays against the model; unknown ones must not exist
